@@ -661,14 +661,16 @@ func ZZ_C44_Step() {
 }
 
 // ZZ_C44_History: K changes in a row from the state start-up leaves behind (configuration file loaded, router
-// empty), with connections in between that leave cached proxies; a cross-check of the inductive step on real histories.
+// empty; the first change is a rebuild, the others rebuilds or reloads), with connections in between that leave cached
+// proxies; a cross-check of the inductive step on real histories.
 func ZZ_C44_History() {
 	cur := zzList("file", false)
 	c := zzNewClient(cur)
 	rt.Assert(c.Configuration.validate() == nil, "pre-state-valid")
 	K := rt.Bound("K")
 	for k := 0; k < K; k++ {
-		reload := rt.Fork("reload")
+		// the first change is the rebuild that ends start-up (Initialize -> SyncConfigTunnels -> RebuildTunnels)
+		reload := k > 0 && rt.Fork("reload")
 		next := zzList("new", reload)
 		before := zzSaves
 		cur2 := zzChange(c, cur, next, reload)
